@@ -200,6 +200,29 @@ pub fn observe(verbose: bool, ase: &AsepriteFile, input_len: usize, o: &mut Vec<
     o.push(format!("layers {}", n_l));
     let fsel = sel(n_f, 10);
     let lsel = sel(n_l, 24);
+    // accessors that duplicate information: size(), PixelFormat::transparent_color_index(),
+    // TilesetsById::is_empty(), Frame::id(), Layer::is_tilemap()
+    {
+        let (sw, sh) = ase.size();
+        let ptci = match ase.pixel_format().transparent_color_index() {
+            None => "-".to_string(),
+            Some(t) => t.to_string(),
+        };
+        let fids: Vec<String> = fsel.iter().map(|&f| ase.frame(f as u32).id().to_string()).collect();
+        let istm: Vec<String> = lsel
+            .iter()
+            .map(|&l| (ase.layer(l as u32).is_tilemap() as u8).to_string())
+            .collect();
+        o.push(format!(
+            "accx size={}x{} tci={} tsempty={} frameids={} istm={}",
+            sw,
+            sh,
+            ptci,
+            ase.tilesets().is_empty() as u8,
+            fids.join(","),
+            istm.join(",")
+        ));
+    }
     for &f in &fsel {
         o.push(format!("frame {} dur {}", f, ase.frame(f as u32).duration()));
     }
@@ -553,7 +576,18 @@ pub fn load_case(verbose: bool, outcome_only: bool, bytes: &[u8]) -> Vec<String>
     let r = guard(|| AsepriteFile::read(Cursor::new(bytes)));
     match r {
         None => o.push("load panic".to_string()),
-        Some(Err(e)) => o.push(format!("load err {}", err_name(&e))),
+        Some(Err(e)) => {
+            // the error value must be usable: Display, Debug and source() return
+            let shown = guard(|| {
+                use std::error::Error;
+                let _ = format!("{} {:?}", e, e);
+                let _ = e.source().map(|s| s.to_string());
+            });
+            match shown {
+                Some(()) => o.push(format!("load err {}", err_name(&e))),
+                None => o.push("load panic (while formatting the error value)".to_string()),
+            }
+        }
         Some(Ok(ase)) => {
             o.push("load ok".to_string());
             if outcome_only {
